@@ -5,7 +5,8 @@ import numpy as np
 from .common import guarded, run_model, rat, frac, close
 
 RULE = ("hypergeometric: every admissible (N, n, G, x) with N <= 12 (quick) / 25 (thorough) and every inadmissible "
-        "combination nearby; binomial: n <= 40, x in 0..n, p on a dyadic grid incl. 0 and 1; the three alternatives; "
+        "combination nearby; binomial: n <= 40, x in 0..n, p on a dyadic grid incl. 0 and 1 (end points also as int / bool / NumPy scalars); the three alternatives; "
+        "populations of 40..200 and samples of 50..400 with extreme observed counts, compared in purely relative terms (1e-8); "
         "non-trivial = a boundary case (x in {0, n}, G in {0, N}, p in {0, 1}) or an interior tail; distinct by arguments")
 LEVEL = ("theorems less+greater(x+1)=1, monotonicity in x, validity for every null parameter and alpha (weighted "
          "rank-validity), rejection of inadmissible arguments; model validated exhaustively against utils.py")
@@ -79,6 +80,38 @@ def run(ctx):
                             det.update({"issue": "not the exact tail probability", "returned": r[1:], "expected": want})
                             ctx.violation("oracle", det, site="binomial_p"); continue
                     ops.append(f"binomp|{alt}|{x}|{n}|{rat(p)}"); meta.append((det, r))
+    # ---- the end points p = 0 and p = 1 (and 1/2) spelled as int / bool / NumPy scalars
+    for _ in range(ctx.n(150, 1500)):
+        n = ctx.rng.randint(1, 25); x = ctx.rng.choice([0, n, ctx.rng.randint(0, n)]); alt = ctx.rng.choice(ALTS)
+        pq, spell = ctx.rng.choice([(Fr(1), 1), (Fr(1), True), (Fr(1), np.int64(1)), (Fr(1), np.int32(1)), (Fr(1), np.float32(1)), (Fr(0), 0), (Fr(0), False),
+                                    (Fr(0), np.int64(0)), (Fr(1, 2), np.float32(0.5)), (Fr(1), 1.0), (Fr(0), 0.0), (Fr(1, 4), np.float64(0.25))])
+        r = guarded(utils.binomial_p, x, n, spell, alt)
+        det = {"call": "binomial_p", "x": x, "n": n, "p": str(pq), "p_given_as": type(spell).__name__, "alternative": alt}
+        ctx.case(("bin-spell", x, n, str(pq), type(spell).__name__, alt), True); ctx.count("binom-p-as-" + type(spell).__name__)
+        want = binom_exact(x, n, pq)[alt]
+        if r[0] != "ok" or not close(r[1], want):
+            det.update({"issue": "not the exact tail probability", "returned": r[1:], "expected": want})
+            ctx.violation("oracle", det, site="binomial_p")
+    # ---- larger populations / samples with extreme observed values: tiny tails must be right to relative precision
+    #      (no absolute tolerance: a p-value of 1e-12 reported as 1.3e-12 rejects too often)
+    for _ in range(ctx.n(250, 2500)):
+        alt = ctx.rng.choice(ALTS)
+        if ctx.rng.random() < 0.6:
+            N = ctx.rng.choice([40, 60, 100, 150, 200]); n = ctx.rng.randint(N // 5, N // 2); G = ctx.rng.randint(N // 5, N // 2)
+            lo_x, hi_x = max(0, n - (N - G)), min(n, G)
+            x = ctx.rng.choice([hi_x, hi_x - 1, hi_x - 2, hi_x - 4, lo_x, lo_x + 1, lo_x + 3, ctx.rng.randint(lo_x, hi_x)])
+            x = min(max(x, lo_x), hi_x)
+            want = hyper_exact(x, N, n, G)[alt]; r = guarded(utils.hypergeometric, x, N, n, G, alt)
+            det = {"call": "hypergeometric", "x": x, "N": N, "n": n, "G": G, "alternative": alt}; site = "hypergeometric"
+        else:
+            n = ctx.rng.choice([50, 100, 200, 400]); p = ctx.rng.choice([Fr(1, 2), Fr(1, 4), Fr(1, 16), Fr(15, 16), Fr(3, 8)])
+            x = ctx.rng.choice([0, 1, 3, n, n - 1, n - 3, ctx.rng.randint(0, n)])
+            want = binom_exact(x, n, p)[alt]; r = guarded(utils.binomial_p, x, n, float(p), alt)
+            det = {"call": "binomial_p", "x": x, "n": n, "p": str(p), "alternative": alt}; site = "binomial_p"
+        ctx.case(("tail-rel", repr(det)), True); ctx.count("relative-precision-tails"); ctx.count("tiny-tail" if want < Fr(1, 10**9) else "ordinary-tail")
+        if r[0] != "ok" or not (abs(Fr(float(r[1])) - want) <= Fr(1, 10**8) * want + Fr(1, 10**290)):
+            det.update({"issue": "tail probability wrong in relative terms", "returned": r[1:], "expected": float(want)})
+            ctx.violation("oracle", det, site=site)
     # ---- sequences of calls with identical arguments in every order of the alternatives: a value must not depend
     #      on which alternative was asked for before
     for _ in range(ctx.n(400, 4000)):
